@@ -1139,6 +1139,60 @@ theorem panelDfs_spec (h : wfPanelIn i = true) :
   intro k hk s hs
   exact hL.done k (by omega) s hs
 
+/-- membership in `segSpec`: reached by some earlier column -/
+theorem mem_segSpec {V : Type} (i : Input V) (t : Int) : ∀ k, t ∈ segSpec i k ↔ ∃ k', k' < k ∧ t ∈ (colPost i k').map Int.ofNat
+  | 0 => by simp [segSpec]
+  | k + 1 => by
+    have ih := mem_segSpec i t k
+    show t ∈ segSpec i k ++ _ ↔ _
+    rw [mem_append, mem_filter]
+    constructor
+    · rintro (h | ⟨h1, _⟩)
+      · obtain ⟨k', a, b⟩ := ih.mp h; exact ⟨k', by omega, b⟩
+      · refine ⟨k, by omega, ?_⟩
+        obtain ⟨s, hs, rfl⟩ := mem_map.mp h1
+        exact mem_map.mpr ⟨s, mem_reverse.mp hs, rfl⟩
+    · rintro ⟨k', a, b⟩
+      by_cases hin : t ∈ segSpec i k
+      · exact Or.inl hin
+      · right
+        have : k' = k := by
+          by_contra hne
+          exact hin (ih.mpr ⟨k', by omega, b⟩)
+        subst this
+        obtain ⟨s, hs, rfl⟩ := mem_map.mp b
+        exact ⟨mem_map.mpr ⟨s, mem_reverse.mpr hs, rfl⟩, by simpa using hin⟩
+
+theorem segSpec_topo {V : Type} (i : Input V) (h : wfPanelIn i = true) : ∀ k : Nat, (k : Int) ≤ i.w → ∀ a r : Nat,
+    (a : Int) ∈ segSpec i k → r ∈ ColDfs.adjR i.cenv i.lsub a → [(r : Int), (a : Int)] <+ segSpec i k
+  | 0, _, a, r, ha, _ => by simp [segSpec] at ha
+  | k + 1, hk, a, r, ha, hr => by
+    have hE := wfPanelIn_env h
+    have hadj := ColDfs.adjR_lt hE
+    have hroots := ColDfs.rootCols_lt hE (wfPanelIn_rows h (k := k) (by push_cast at hk; omega))
+    have ih := segSpec_topo i h k (by push_cast at hk ⊢; omega)
+    have ha' : (a : Int) ∈ segSpec i k ++ ((colPost i k).reverse.map Int.ofNat).filter (fun t => decide (t ∉ segSpec i k)) := ha
+    show _ <+ segSpec i k ++ ((colPost i k).reverse.map Int.ofNat).filter (fun t => decide (t ∉ segSpec i k))
+    rcases mem_append.mp ha' with h1 | h1
+    · exact (ih a r h1 hr).trans (sublist_append_left _ _)
+    · rw [mem_filter] at h1
+      obtain ⟨s, hs, hsa⟩ := mem_map.mp h1.1
+      have hsa' : s = a := Int.ofNat.inj hsa
+      subst hsa'
+      have htopo : [r, s] <+ (colPost i k).reverse :=
+        dfsPost_topo hadj _ hroots s hs r hr
+      have hmap : [(r : Int), (s : Int)] <+ (colPost i k).reverse.map Int.ofNat := htopo.map Int.ofNat
+      by_cases hrin : (r : Int) ∈ segSpec i k
+      · have h2 : [(s : Int)] <+ ((colPost i k).reverse.map Int.ofNat).filter (fun t => decide (t ∉ segSpec i k)) :=
+          singleton_sublist.mpr (mem_filter.mpr h1)
+        exact (singleton_sublist.mpr hrin).append h2
+      · have hf := hmap.filter (fun t => decide (t ∉ segSpec i k))
+        have hnotin : (s : Int) ∉ segSpec i k := by simpa using h1.2
+        have : [(r : Int), (s : Int)].filter (fun t => decide (t ∉ segSpec i k)) = [(r : Int), (s : Int)] := by
+          simp [hrin, hnotin]
+        rw [this] at hf
+        exact hf.trans (sublist_append_right _ _)
+
 end panel
 
 end Slu.PanelDfs
